@@ -5,29 +5,29 @@ import json, sys, os
 CLAIMED = {
  # id: (level, technique, level text, level note, design ref)
  "C01": ("exploration", "runtime monitoring: independent strict decoder (refdec) + claxon as oracle over generated workloads; hook coverage counters",
-         "Every stream emitted for thousands (quick) to hundreds of thousands (thorough) of generated inputs x configurations x thread modes is decoded by an independent RFC 9639 decoder written in the harness and compared sample by sample with the input; dedicated workloads drive the side-channel widths, the 64-bit LPC residual path (confirmed by a hook counter), short final blocks and the frame-level entry point. Held on the executions observed, not a proof.",
+         "Every stream emitted for thousands (quick) to hundreds of thousands (thorough) of generated inputs x configurations x thread modes is decoded by an independent RFC 9639 decoder written in the harness and compared sample by sample with the input; dedicated workloads drive the side-channel widths, the 64-bit LPC residual path (confirmed by a hook counter), short final blocks, streams of >1024 / >65536 frames, blocks of 256-768 KiB raw, pipe-style sources and the frame-level entry point; every sixth case is observed right after failed writes on the same thread; an in-process watchdog turns a call that never returns into a violation (state rule, not a deadline). Held on the executions observed, not a proof.",
          "Trusts refdec (unit-tested on hand-built frames, cross-checked by claxon on every stream); md-5 crate for the digest primitive.", "DESIGN.md 2/C01"),
  "C03": ("exploration", "runtime monitoring: STREAMINFO of every emitted stream vs instrumented source + own MD5 serialisation",
-         "STREAMINFO fields of every observed stream are compared with the source's format, the sample count the instrumented source handed over and an MD5 the harness computes from its own serialisation, across integer/byte fill, with/without length hint, 1/many threads.",
+         "STREAMINFO fields of every observed stream are compared with the source's format, the sample count the instrumented source handed over and an MD5 the harness computes from its own serialisation, across integer/byte fill, with/without length hint, 1/many threads; the 36-bit total-samples field is exercised with totals around 2^32..2^36-1 through the setter (every tier) and with real streams of more than 2^32 samples from a generating source (thorough).",
          "md-5 crate supplies the compression function only.", "DESIGN.md 2/C03"),
  "C04": ("exploration", "runtime monitoring: STREAMINFO bounds vs frames recovered by the independent decoder; enumerated length residues",
-         "Block-size and frame-size bounds of STREAMINFO are compared with the frames refdec finds in the stream, for an enumerated grid of block sizes x every length residue x full-block counts plus the common workload.",
+         "Block-size and frame-size bounds of STREAMINFO are compared with the frames refdec finds in the stream, for an enumerated grid of block sizes x every length residue x full-block counts plus the common workload (incl. streams beyond 1024/65536 frames with late extremes, frames of up to ~786 kB, configurations whose block_size field differs from the block-size argument).",
          "Frame boundaries are those found by refdec.", "DESIGN.md 2/C04"),
  "C09": ("exploration", "runtime monitoring: frame byte lengths vs verbatim bound on hostile loud/heavy-tailed workloads",
-         "The byte length of every emitted frame is compared with the verbatim bound; the workload concentrates on loud 16/20/24-bit, heavy-tailed, alternating and anti-correlated content with restricted Rice parameters and every order-selection mode; frames are size-checked through count_bits() before anything is serialised.",
+         "The byte length of every emitted frame is compared with the verbatim bound; the workload concentrates on loud 16/20/24-bit, heavy-tailed, alternating and anti-correlated content with restricted Rice parameters and every order-selection mode; frames are size-checked through count_bits() before anything is serialised; 'wrap32' blocks are built so that the Rice quotient sum of a candidate is k*2^32+delta (a size bookkeeping that wraps at 2^32 would emit a 512 MiB frame).",
          "Frame boundaries from refdec; count_bits() is itself checked by C08.", "DESIGN.md 2/C09"),
  "C13": ("exploration", "runtime monitoring: brute-force Rice optimum vs parameters recovered from emitted bytes",
-         "For every FIXED/LPC residual the independent decoder recovers (values, partition order, parameters, coded size), a brute-force search over the encoder's search space computes the optimum in u64 and the emitted size must equal it (when below 2^28).",
+         "For every FIXED/LPC residual the independent decoder recovers (values, partition order, parameters, coded size), a brute-force search over the encoder's search space computes the optimum in u64 and the emitted size must equal it (when below 2^28); workloads: tone + graded/switching noise, loud content, smooth blocks with a near-Nyquist full-scale burst (8/12-bit: parameters above the sample width), odd and 64..127-sample blocks.",
          "Residuals and sizes are those refdec recovers.", "DESIGN.md 2/C13"),
  "C15": ("exploration", "runtime monitoring: parser/Decode round trip of every emitted stream and frame",
-         "Every emitted stream (all widths, side channels, explicit size/rate codes, extra metadata blocks, the empty stream) is parsed with the crate's parser; the tree must consume all input, verify, re-serialise identically and decode to the input; frames are also parsed on their own.",
+         "Every emitted stream (all widths, side channels, explicit size/rate codes, extra metadata blocks, the empty stream) is parsed with the crate's parser; the tree must consume all input, verify, re-serialise identically and decode to the input; frames and subframes are also parsed on their own (subframes at their channel's width); single frames at every length class of the coded frame number; metadata blocks up to 300 kB.",
          "none beyond the harness", "DESIGN.md 2/C15"),
 
  "C02": ("exploration", "runtime monitoring: strict RFC 9639 validator (refdec) over enumerated header code spaces and generated streams",
          "Block lengths 1..=32767 and sample rates 1..=96000 are enumerated completely through the real frame-level encoder, frame numbers through the encoder for [0,2^16)+class boundaries and through FrameHeader::write for a stride sweep (quick) or all 2^31 values (thorough); every frame/stream is validated by refdec in strict mode (sync, reserved bits/codes, canonical numbers, CRCs, padding, subframe limits, Rice rules, block-size/STREAMINFO agreement, no trailing bytes).",
          "refdec is the harness's reading of RFC 9639 plus the literal wording of C02.", "DESIGN.md 2/C02"),
  "C05": ("exploration", "runtime monitoring: schedule perturbation at hook points + offline trace checker (exactly-once, ordering, ownership) + byte comparison, in supervised child processes",
-         "Each scenario runs one multi-thread encode per supervised child with a hook callback that injects seeded delays at every channel send/recv, buffer lock and thread start/exit and records a totally ordered event log; bytes(single)==bytes(multi)==bytes(frame-wise)==bytes(repeat) and the log must satisfy T1 buffer ownership, T2 frame numbering/exactly-once, T3 stop tokens, T4 hasher FIFO, T5 all helpers exited. Evidence reports distinct interleavings and runs with out-of-order completion. ThreadSanitizer and Miri passes (thorough) add data-race/UB/deadlock/leak detection on reduced workloads.",
+         "Each scenario runs one multi-thread encode per supervised child with a hook callback that injects seeded delays at every channel send/recv, buffer lock and thread start/exit and records a totally ordered event log; bytes(single)==bytes(multi)==bytes(frame-wise)==bytes(repeat) and the log must satisfy T1 buffer ownership, T2 frame numbering/exactly-once, T3 stop tokens, T4 hasher FIFO, T5 all helpers exited. Scenarios include more than 65536 frames and pipe-style sources with short reads. Evidence reports distinct interleavings and runs with out-of-order completion. ThreadSanitizer and Miri passes (thorough) add data-race/UB/deadlock/leak detection on reduced workloads.",
          "Schedules are sampled, not enumerated; TSan only sees synchronisation it intercepts (std is rebuilt with -Zbuild-std).", "DESIGN.md 2/C05"),
  "C06": ("fault_enumeration", "runtime monitoring: enumerated source faults x worker counts x schedule policies in supervised children; /proc-state deadlock detection; event-log thread-leak check",
          "Every fault position (read error at read k for k in 0..=F; out-of-range sample at first/middle/last position of block k) for F in {1,2,3,5,8,12} is enumerated and crossed with worker counts and schedule policies; each call must return (deadlock decided from /proc task states, never a deadline), no thread may panic, the error kind must equal single-thread's (also with several faults: errors are reported in stream order), and no helper thread may survive the call (event log + /proc/self/task).",
@@ -39,31 +39,31 @@ CLAIMED = {
          "Every component reachable from encoder output, parser output and public constructors is written into MemSink<u8>, MemSink<u64> and a user sink; lengths must equal count_bits() and bits must be identical; frames also before/after precompute; constructed residuals straddle the SIMD/scalar quotient-sum switch (confirmed by hook counters) and sums above 2^32 (counting sink; real 512 MiB sinks in thorough).",
          "Components above 64 MiB are checked with a counting sink plus the harness's own size model.", "DESIGN.md 2/C08"),
  "C10": ("exploration", "runtime monitoring: call histories on one long-lived thread vs each call alone on a fresh thread",
-         "Histories of 5-40 mixed calls (stream encode to both sink types, frame-level encode, parse+re-serialise; shrinking/growing block sizes, channel/width/LPC/Rice/window changes incl. alphas closer than 2^-16, single and multi thread) run on one thread; every result must equal the same call made alone on a freshly spawned thread.",
+         "Histories of 5-40 mixed calls (stream encode to both sink types, frame-level encode, parse+re-serialise; shrinking/growing block sizes, channel/width/LPC/Rice/window changes incl. alphas closer than 2^-16, single and multi thread) run on one thread; every result must equal the same call made alone on a freshly spawned thread; histories contain calls that fail part-way (failing sink, unserialisable header) and runs of 70-130 distinct block lengths on one thread.",
          "A fresh OS thread has fresh thread-locals.", "DESIGN.md 2/C10"),
  "C11": ("exploration", "runtime monitoring: bit-string reference model checked after every sink operation; exhaustive offset x width x type grid",
          "Both in-memory sinks are compared with an ideal MSB-first bit-string model after every operation (len, as_slice incl. zero tail, write_to_byte_slice, to_bitstring, into_inner): exhaustive over start offset 0..=63 x operand type x n in 0..=width x {msbs,lsbs} x 4 values, plus write/write_twoc at every width, zero runs, alignment, aligned byte slices; random histories of 1-200 operations; a user sink implementing only the required methods must receive the same bits for every component of generated streams.",
          "write_twoc is exercised on its documented domain (1..=T::BITS).", "DESIGN.md 2/C11"),
  "C12": ("fault_enumeration", "runtime monitoring: sink fault injected at every operation index of a write",
-         "A fault-free pass counts the N sink operations of a write; then every k in 0..N (dense up to 1500-2500, strided beyond) is injected into streams (single/multi-thread = precomputed frames, with/without metadata), frames in both forms, headers, subframes, residuals and STREAMINFO; each fault must come back as OutputError::Sink(k) without panic and the accepted bits must be a prefix of the fault-free bits.",
+         "A fault-free pass counts the N sink operations of a write; then every k in 0..N (dense up to 1500-2500, strided beyond) is injected into streams (single/multi-thread = precomputed frames, with/without metadata), frames in both forms, headers, subframes, residuals and STREAMINFO; each fault must come back as OutputError::Sink(k) without panic and the accepted bits must be a prefix of the fault-free bits; every sweep is repeated with a sink that already holds 3 bits (alignment steps are then real), and after a fault the same component is written again and must give the fault-free bits.",
          "The sink implements only the required trait methods.", "DESIGN.md 2/C12"),
  "C14": ("exploration", "runtime monitoring: integer vs byte fill compared through buffer views, context state and emitted bytes",
-         "Channels 1..=8 x bytes-per-sample 1..=4 x capacities {32,33,64,257,4096} x fill lengths (enumerated for small capacities) incl. refilling a full buffer with shorter blocks: buffer contents (seen through verbatim-only frames), Context md5/total/frame number and emitted streams (both thread modes) must be identical for fill_interleaved and fill_le_bytes.",
+         "Channels 1..=8 x bytes-per-sample 1..=4 x capacities {32,33,64,257,4096} x fill lengths (enumerated for small capacities) incl. refilling a full buffer with shorter blocks: buffer contents (seen through verbatim-only frames), Context md5/total/frame number and emitted streams (both thread modes) must be identical for fill_interleaved and fill_le_bytes; the (FrameBuf, Context) pair is driven with sequences containing refused (too long) and empty fills and FrameBuf::resize steps, after each of which both delivery paths must have left the pair in the same state.",
          "4-byte samples only at frame-buffer level.", "DESIGN.md 2/C14"),
  "C16": ("fault_enumeration", "runtime monitoring: exhaustive bit-flip / burst / byte-XOR / truncation corruption of emitted streams + random inputs into the parser",
-         "Every single-bit flip of the frame region of 10-40 small emitted streams, every 2..8-bit burst pattern at every bit offset, every XOR byte at every byte, every truncation, plus 10^5-10^7 random inputs/splices: the parser must not panic, and an accepted altered stream must decode to the original audio.",
+         "Every single-bit flip of the frame region of 10-40 small emitted streams, every 2..8-bit burst pattern at every bit offset, every XOR byte at every byte, every truncation, plus 10^5-10^7 random inputs/splices and valid frames whose coded frame/sample number is replaced by an arbitrary 1..7-byte code with both CRCs recomputed: the parser must not panic, and an accepted altered stream must decode to the original audio.",
          "Release-profile arithmetic; the debug-profile pass (thorough) adds overflow checks.", "DESIGN.md 2/C16"),
  "C17": ("exploration", "runtime monitoring: enumerated boundary/wrap-around argument grid executed in supervised children",
-         "The argument grid of the property (0, min-1, min, max, max+1, 2^8+k, 2^16+k, 2^32+k, usize::MAX per argument of every entry point, both thread modes) is enumerated; each call runs in a supervised child; outside the supported domain the outcome must be Err - never Ok, panic, hang or abort.",
+         "The argument grid of the property (0, min-1, min, max, max+1, 2^8+k, 2^16+k, 2^32+k, usize::MAX per argument of every entry point, both thread modes) is enumerated; each call runs in a supervised child; outside the supported domain the outcome must be Err - never Ok, panic, hang or abort; fills after FrameBuf::resize follow the same capacity rule; ragged slices (not in the property's list) are observed, not judged.",
          "Supported domain transcribed from the documentation; in-between widths may error or encode losslessly.", "DESIGN.md 2/C17"),
  "C18": ("exploration", "runtime monitoring: hostile constructor arguments; accepted components must verify, write count_bits() bits and parse back identically",
-         "Tens of thousands (quick) to millions (thorough) of consistent, boundary and inconsistent argument tuples for every public constructor, each in a supervised child: no panic in constructor or verify(); Ok implies verify(), panic-free writes of exactly count_bits() bits into three sink types, and a parser round trip with identical Debug rendering and bytes.",
+         "Tens of thousands (quick) to millions (thorough) of consistent, boundary and inconsistent argument tuples for every public constructor, each in a supervised child: no panic in constructor or verify(); Ok implies verify(), panic-free writes of exactly count_bits() bits into three sink types, and a parser round trip with identical Debug rendering and bytes; a third of the scenarios run right after failed writes on the thread; Rice quotients at the 32/64-bit code boundaries, block sizes around 2^32/2^63/usize::MAX, frame/sample numbers of every coded length.",
          "One recorded known finding (StreamInfo::new sentinel bounds).", "DESIGN.md 2/C18"),
  "C19": ("exploration", "runtime monitoring: TOML round trip and key-deletion oracle against a transcribed default table",
-         "Random configurations over everything TOML can carry: serialise/parse equality field by field, 1-6 deletion documents per configuration checked against the documented defaults, and verify() agreement before/after.",
+         "Random configurations over everything TOML can carry: serialise/parse equality field by field, 1-6 deletion documents per configuration checked against the documented defaults, and verify() agreement before/after; a third of the workload is repeated with FLACENC_WORKERS set in the process (serialisation, parsing and defaults must not depend on the environment).",
          "Defaults transcribed from the doc comments.", "DESIGN.md 2/C19"),
  "C20": ("exploration", "runtime monitoring: differential digests of four feature-set builds over a fixed corpus",
-         "A digest binary is built with the four feature sets of the project's CI matrix; the per-case hashes of a 300 (quick) / 3000 (thorough) case corpus must be identical across the builds and with the harness's own computation.",
+         "A digest binary is built with the four feature sets of the project's CI matrix; the per-case hashes of a 300 (quick) / 3000 (thorough) case corpus must be identical across the builds and with the harness's own computation; the corpus includes streams beyond 1024 frames and pipe-style sources with short reads.",
          "Only those four feature sets are built.", "DESIGN.md 2/C20"),
 }
 
